@@ -22,6 +22,27 @@ const HOSTILE: &[&str] = &[
     "<b>", " ", "\n", "\t", "\x0C", "=", "`", "&#x26;", "&notit;", "&not", "\u{feff}", "日本", "\u{10ffff}", "<", "&", "a", "b",
 ];
 
+/// Every local name web_atoms knows (element and attribute names alike: 1100 of them) that the
+/// tree builder gives no special treatment: not in any of the generator's special-element lists,
+/// lower-case, a valid tag name. As HTML elements they are all "ordinary", so the serializer must
+/// treat them like a div - a name-based special case in the serializer (void, raw text) for a name the
+/// parser does not special-case breaks the round trip.
+fn ordinary_atom_names() -> &'static [&'static str] {
+    static NAMES: std::sync::OnceLock<Vec<&'static str>> = std::sync::OnceLock::new();
+    NAMES.get_or_init(|| {
+        let special = gen::special_html_names();
+        include_str!("/repo/web_atoms/local_names.txt")
+            .lines()
+            .map(|l| l.trim())
+            .filter(|l| !l.is_empty() && l.chars().next().unwrap().is_ascii_lowercase() && l.chars().all(|c| c.is_ascii_lowercase() || c.is_ascii_digit() || c == '-'))
+            .filter(|l| !special.contains(l) && !PARSER_SPECIAL_EXTRA.contains(l))
+            .collect()
+    })
+}
+
+/// names the tree builder treats specially that the generator's lists do not carry
+const PARSER_SPECIAL_EXTRA: &[&str] = &["image", "spacer", "multicol", "blink", "dir", "menu", "summary", "search", "hgroup", "selectedcontent", "slot"];
+
 fn hostile(rng: &mut Rng, maxparts: usize) -> String {
     let mut s = String::new();
     for _ in 0..rng.range(1, maxparts) {
@@ -79,7 +100,8 @@ fn gen_tree(rng: &mut Rng, parent: &Handle, depth: usize, budget: &mut usize) {
             for name in names.iter().take([0, 0, 1, 1, 2, 3][rng.below(6)]) {
                 attrs.push((name.to_string(), if rng.chance(1, 6) { String::new() } else { hostile(rng, 3) }));
             }
-            let e = elem(NS_HTML, rng.pick_s(SAFE), attrs);
+            let name = if rng.chance(1, 3) { let v = ordinary_atom_names(); v[rng.below(v.len())] } else { rng.pick_s(SAFE) };
+            let e = elem(NS_HTML, name, attrs);
             if depth < 5 {
                 gen_tree(rng, &e, depth + 1, budget);
             }
@@ -93,9 +115,23 @@ fn ser(h: &Handle, scope: TraversalScope, scripting: bool) -> Result<String, Str
     catch(|| {
         let mut out = Vec::new();
         let sh: SerializableHandle = h.clone().into();
-        serialize(&mut out, &sh, SerializeOpts { scripting_enabled: scripting, traversal_scope: scope, create_missing_parent: false }).expect("serialize");
+        serialize(&mut out, &sh, SerializeOpts { scripting_enabled: scripting, traversal_scope: scope.clone(), create_missing_parent: false }).expect("serialize");
+        // the same serialization into a writer that accepts only a few bytes per call must give
+        // the same bytes (one in eight serializations, chosen by content)
+        if out.len() % 8 == 3 {
+            let mut w = ChoppyWriter::new(out.len() as u64 / 8 + out.iter().map(|b| *b as u64).sum::<u64>());
+            serialize(&mut w, &sh, SerializeOpts { scripting_enabled: scripting, traversal_scope: scope, create_missing_parent: false }).expect("serialize into a short-writing writer");
+            CHOPPY_RUNS.with(|c| c.set(c.get() + 1));
+            if w.out != out {
+                panic!("short-write writer: serializing into a writer that accepts a few bytes per write() call produced {} bytes, into a Vec {} bytes (first difference at byte {})", w.out.len(), out.len(), w.out.iter().zip(out.iter()).position(|(a, b)| a != b).unwrap_or(w.out.len().min(out.len())));
+            }
+        }
         String::from_utf8(out).expect("utf8")
     })
+}
+
+thread_local! {
+    static CHOPPY_RUNS: std::cell::Cell<u64> = const { std::cell::Cell::new(0) };
 }
 
 fn parse_fragment_div(s: &str) -> Result<TNode, String> {
@@ -115,9 +151,13 @@ fn check_round_trip(rng: &mut Rng, st: &mut Stats) {
     let mut budget = rng.range(1, 14);
     gen_tree(rng, &container, 0, &mut budget);
     let want = from_rcdom(&container);
-    let Ok(s) = ser(&container, TraversalScope::ChildrenOnly(None), true) else {
-        st.violation("roundtrip:serializer-panic", "serializer panicked", json!({"tree": dump_html(&want)}));
-        return;
+    let s = match ser(&container, TraversalScope::ChildrenOnly(None), true) {
+        Ok(s) => s,
+        Err(m) => {
+            let sig = if m.contains("short-write writer") { "serializer:short-writes" } else { "roundtrip:serializer-panic" };
+            st.violation(sig, &format!("serializing the tree failed: {m}"), json!({"tree": dump_html(&want)}));
+            return;
+        },
     };
     st.case(Some(hash_str(&s)));
     st.count("round_trips");
@@ -145,8 +185,14 @@ const VOID: &[&str] = &["area", "base", "basefont", "bgsound", "br", "col", "emb
 /// Part B on one element
 fn check_inner_outer(e: &Handle, scripting: bool, st: &mut Stats) -> Option<(String, String)> {
     let NodeData::Element { name, attrs, .. } = &e.data else { return None };
-    let outer = ser(e, TraversalScope::IncludeNode, scripting).ok()?;
-    let inner = ser(e, TraversalScope::ChildrenOnly(Some(name.clone())), scripting).ok()?;
+    let (outer, inner) = match (ser(e, TraversalScope::IncludeNode, scripting), ser(e, TraversalScope::ChildrenOnly(Some(name.clone())), scripting)) {
+        (Ok(o), Ok(i)) => (o, i),
+        (Err(m), _) | (_, Err(m)) => {
+            // the serializer panicked (or wrote something else into a short-writing writer)
+            let sig = if m.contains("short-write writer") { "serializer:short-writes".to_string() } else { format!("serializer-panic:{}", crate::report::panic_signature(&m)) };
+            return Some((sig, format!("<{}:{}> scripting={scripting}: {m}", crate::drive::short_ns(&name.ns), name.local)));
+        },
+    };
     let bare = Node::new(NodeData::Element {
         name: name.clone(),
         attrs: RefCell::new(attrs.borrow().clone()),
@@ -350,12 +396,13 @@ pub fn run(args: &Args) -> (Meta, Stats) {
                 }
             }
         }
+        st.add("serializations_into_short_write_writer", CHOPPY_RUNS.with(|c| c.replace(0)));
     });
     let mut m = super::meta(
         args,
         "(A) random RcDom trees built by hand over a safe vocabulary (no void, raw-text, RCDATA, implied-end-tag, nesting-restricted, table, form, formatting, heading or pre/listing/textarea elements) with hostile attribute values and text (& < > \" ' ; # NBSP, characters whose UTF-8 form starts with 0xC2, entity look-alikes, </div>, <!--, ]]>, long strings, U+FEFF first; no CR/NUL; text nodes non-empty and non-adjacent) are serialized, re-parsed with parse_fragment(context div, discard_bom=false) and compared exactly. (B) for every element of generated, parsed and hand-built trees (raw-text names in the HTML, SVG and MathML namespaces), both scripting settings: outer == start tag + inner(ChildrenOnly(Some(name))) + end tag. (C) exhaustive matrix parent (7 raw-text names, noscript, ordinary names) x namespace (html, svg, mathml) x text (17 specials alone, in pairs, and at offsets 0..33 of a filler): inner and outer serialization must equal an independent 5-rule escaper, or the raw text under HTML raw-text parents. Distinct = distinct serializations / matrix cells.",
         &["pre/listing/textarea are excluded from the round-trip vocabulary because the HTML syntax itself drops a leading LF there", "void elements are only checked when childless (the parser never gives them children)"],
     );
-    m.require = vec![("round_trips".into(), 2000), ("matrix_cells".into(), 50000), ("elements_checked_inner_outer".into(), 20000), ("parsed_trees_walked".into(), 500)];
+    m.require = vec![("round_trips".into(), 2000), ("matrix_cells".into(), 50000), ("elements_checked_inner_outer".into(), 20000), ("parsed_trees_walked".into(), 500), ("serializations_into_short_write_writer".into(), 2000)];
     (m, st)
 }
